@@ -73,9 +73,18 @@ def rule_t12(report, prog):
             report.check(okk, 'C02-R1', key(q, 'length store is flushed before return', c.ast), f.loc(c.ast),
                          'a length store is never written to the tag')
         # the zero value is a literal 0 at offset+1 of the NDEF TLV (same offset variable as the commit)
-        off = [norm(s.value) for s in walk_no_nested(f.node) if isinstance(s, ast.Assign) and norm(s.targets[0]) == 'offset']
-        report.check(off.count('self._ndef_tlv_offset') == 2, 'C02-R1', key(q, 'zeroing and commit address the same TLV'), f.loc(),
-                     'offset is reloaded from the TLV offset %d times (expected before zeroing and before commit)' % off.count('self._ndef_tlv_offset'))
+        # (reaching definitions: at the zeroing store and at every length store the `offset` in the subscript was last loaded from
+        # the TLV offset, however often it is reloaded)
+        defs = [n_ for n_ in cfg.nodes if n_.kind == 'stmt' and isinstance(n_.ast, (ast.Assign, ast.AugAssign)) and
+                any(isinstance(x, ast.Name) and x.id == 'offset' and isinstance(x.ctx, ast.Store) for x in ast.walk(n_.ast))]
+        bad_defs = []
+        for st_ in ev['Z'] + ev['C'] + ev['X']:
+            reaching = [d for d in defs if st_ in cfg.reachable(d, avoid_nodes=[x for x in defs if x is not d]) and d is not st_]
+            if not reaching or any(not (isinstance(d.ast, ast.Assign) and norm(d.ast.value) == 'self._ndef_tlv_offset') for d in reaching):
+                bad_defs.append((st_, reaching))
+        report.check(not bad_defs and bool(ev['Z']), 'C02-R1', key(q, 'zeroing and commit address the same TLV'), f.loc(),
+                     'the length store `%s` uses an offset last bound by %s, not by the TLV offset' % (
+                         norm(bad_defs[0][0].ast) if bad_defs else '', [norm(d.ast) for d in bad_defs[0][1]] if bad_defs else []))
         # commit byte alone: between the extended length store X and the commit-byte store of 0xFF there must be a flush,
         # with X first (so that the tag shows length 0 until the single commit byte lands)
         for x in ev['X']:
